@@ -19,6 +19,11 @@ Items ==
   \cup { Item("jub_scalar", 0, v, FALSE, 0) : v \in FMenu(JubR, 64, 4) }
   \cup UNION { { Item(f, 0, v, FALSE, 0) : v \in FMenu(Modulus(f), LB(f), NL(f)) } : f \in {"secp_n", "secp_p", "bls_p"} }
   \cup UNION { { Item("big", n, v, FALSE, 0) : v \in UMenu(n) } : n \in BigWidths }
+  \* values handed to the big-integer encoder that do NOT fit the limbs of the declared width (and one that fits the limbs
+  \* but exceeds the width): the encoder is a partial function, see DomOK
+  \cup UNION { { Item("big_dom", n, v, FALSE, 0) :
+                    v \in {Pow2(n), Pow2(BigLB * NLimbsU(n)), Add(Pow2(BigLB * NLimbsU(n)), OfInt(5)),
+                           Add(Pow2(BigLB * (NLimbsU(n) + 1)), One), Add(Pow2(BigLB * NLimbsU(n) + 7), Sub(Pow2(n), One))} } : n \in BigWidths }
   \cup UNION { { Item(ty, 0, PMulI(CurveOfTy(ty), k, CurveOfTy(ty).g), TRUE, k) : k \in DlogMenu } : ty \in {"jub_point", "secp_point", "bls_point"} }
 
 VARIABLE it
@@ -26,12 +31,21 @@ Init == it \in Items
 Next == UNCHANGED it
 Spec == Init /\ [][Next]_it
 
-RoundTrip == /\ Typed(it.ty, it.nbits, it.val)
+IsDom == it.ty = "big_dom"
+\* why the encoder must refuse what does not fit: exactly those values do not survive the limb decomposition, and their
+\* truncation IS the encoding of another value (so returning it would make two values share an encoding)
+DomOK == IsDom =>
+  LET n == NLimbsU(it.nbits)  fits == Lt(it.val, Pow2(BigLB * n)) IN
+  /\ fits <=> DecodeU(EncodeU(it.val, n)) = it.val
+  /\ ~fits => /\ CanonU(EncodeU(it.val, n))
+              /\ DecodeU(EncodeU(it.val, n)) # it.val
+RoundTrip == IsDom \/
+             /\ Typed(it.ty, it.nbits, it.val)
              /\ Len(Encode(it.ty, it.nbits, it.val)) = EncLen(it.ty, it.nbits)
              /\ Decode(it.ty, it.nbits, Encode(it.ty, it.nbits, it.val)) = it.val
-Injective == \A o \in Items : (o.ty = it.ty /\ o.nbits = it.nbits /\ o.val # it.val) =>
+Injective == IsDom \/ \A o \in Items : (o.ty = it.ty /\ o.nbits = it.nbits /\ o.val # it.val) =>
                  Encode(o.ty, o.nbits, o.val) # Encode(it.ty, it.nbits, it.val)
 EmitReplay == PrintT("REPLAY " \o ToJson([ty |-> it.ty, nbits |-> it.nbits,
                                             val |-> IF it.isd THEN <<>> ELSE it.val, dlog |-> it.dlog,
-                                            isdlog |-> it.isd, len |-> EncLen(it.ty, it.nbits)]))
+                                            isdlog |-> it.isd, len |-> IF IsDom THEN NLimbsU(it.nbits) ELSE EncLen(it.ty, it.nbits)]))
 =============================================================================
